@@ -3,7 +3,7 @@
    Quantifiers: every chain length, every result vector (one result per
    certificate: the revocation.Validator contract), every validator
    configuration, scheme and action. *)
-From NV Require Import Base C05_Model C05_Proofs.
+From NV Require Import Base C05_Model C05_Proofs C05_Full.
 
 (* passes only if every certificate is OK or non-revokable (and then it does) *)
 Theorem C05_pass_iff : forall i rs,
@@ -73,3 +73,266 @@ Example C05_example :
   let i := mk_input Enforce true 1 ["leaf"; "inter"; "root"] (VRes [RUnknown; RRevoked; ROK]) in
   wf i = true /\ model i = mk_obs [mk_call 1 ["leaf"; "inter"; "root"] true] (Some (Revoked "inter")) true.
 Proof. split; reflexivity. Qed.
+
+(* further non-vacuity witnesses for the theorems above: each hypothesis set is met by a
+   concrete input, and the conclusion is the non-trivial one *)
+Example C05_example_pass :
+  let i := mk_input Enforce false 2 ["leaf"; "root"] (VRes [ROK; RNonRevokable]) in
+  i_action i <> Skip /\ wf i = true /\ Forall (fun r => r = ROK \/ r = RNonRevokable) [ROK; RNonRevokable] /\
+  model i = mk_obs [mk_call 2 ["leaf"; "root"] false] (Some Pass) false.
+Proof. cbv zeta. split; [discriminate|]. split; [reflexivity|]. split; [|reflexivity]. repeat (apply Forall_cons; [auto|]). apply Forall_nil. Qed.
+
+Example C05_example_unknown_last_wins_not :   (* [OK; Unknown; OK]: the OK inspected last does not win *)
+  let i := mk_input Enforce false 3 ["leaf"; "inter"; "root"] (VRes [ROK; RUnknown; ROK]) in
+  wf i = true /\ ~ Forall (fun r => r = ROK \/ r = RNonRevokable) [ROK; RUnknown; ROK] /\ ~ In RRevoked [ROK; RUnknown; ROK] /\
+  model i = mk_obs [mk_call 1 ["leaf"; "inter"; "root"] false] (Some (Unknown "inter")) true.
+Proof.
+  repeat split.
+  - intros H. inversion H as [|? ? _ H2]. inversion H2 as [|? ? H3 _]. destruct H3; discriminate.
+  - cbn. intros [H|[H|[H|[]]]]; discriminate.
+Qed.
+
+Example C05_example_other_value :            (* a result value outside the four constants fails as unknown *)
+  model (mk_input Log true 1 ["leaf"] (VRes [ROther])) = mk_obs [mk_call 1 ["leaf"] true] (Some (Unknown "leaf")) false.
+Proof. reflexivity. Qed.
+
+Example C05_example_error :
+  model (mk_input Enforce true 2 ["leaf"; "root"] VErr) = mk_obs [mk_call 2 ["leaf"; "root"] true] (Some Inconclusive) true.
+Proof. reflexivity. Qed.
+
+Example C05_example_skip :
+  model (mk_input Skip true 3 ["leaf"; "root"] (VRes [RRevoked; RRevoked])) = mk_obs [] None false.
+Proof. reflexivity. Qed.
+
+Example C05_example_log :
+  model (mk_input Log false 3 ["leaf"; "root"] (VRes [RRevoked; ROK])) =
+  mk_obs [mk_call 1 ["leaf"; "root"] false] (Some (Revoked "leaf")) false.
+Proof. reflexivity. Qed.
+
+(* ====================================================================== *)
+(* FULL-STRENGTH statements, over the full model [xmodel] (C05_Model.v, second part):
+   every answer a validator can give is an input - an error with or without results,
+   fewer or more results than certificates, every method annotation and server result -
+   as are the value of the signing time and the verifier without any validator.
+   No theorem below restricts the validator's answer unless the restriction is the point
+   of the theorem (and then a refutation shows it cannot be dropped).
+   [model] is a projection of [xmodel]: C05_model_is_projection. *)
+
+(* passes if and only if a validator exists, it returned no error, not more results than
+   certificates, and every result is OK or non-revokable. Total: no contract assumed. *)
+Theorem C05_full_pass_iff : forall x, x_action x <> Skip ->
+  (xo_result (xmodel x) = Some Pass <->
+   x_val x <> 4%N /\ x_err x = false /\
+   List.length (x_results x) <= List.length (x_chain x) /\
+   Forall (fun c => cr_result c = ROK \/ cr_result c = RNonRevokable) (x_results x)).
+Proof. exact xpass_iff. Qed.
+Print Assumptions C05_full_pass_iff.
+
+(* the clause as worded: passes only if EVERY CERTIFICATE OF THE CHAIN was reported OK or
+   non-revokable - for a validator that answers with one result per certificate or an error *)
+Theorem C05_full_pass_only_if : forall x, x_action x <> Skip ->
+  (x_err x = false -> List.length (x_results x) = List.length (x_chain x)) ->
+  xo_result (xmodel x) = Some Pass ->
+  forall k s, nth_error (x_chain x) k = Some s ->
+    exists c, nth_error (x_results x) k = Some c /\ (cr_result c = ROK \/ cr_result c = RNonRevokable).
+Proof. exact xpass_only_if. Qed.
+Print Assumptions C05_full_pass_only_if.
+
+(* ... and that restriction cannot be dropped: a validator answering without error and with
+   FEWER results than certificates (here none at all) makes the validation pass under enforce,
+   although nothing was reported about a certificate of the chain. The real code does the same
+   (harness family 8, e.g. the (nil, nil) cases). Recorded as a finding in docs/audit/C05.md. *)
+Theorem C05_pass_only_if_refuted :
+  exists x, x_action x = Enforce /\ x_err x = false /\ x_val x = 1%N /\
+            xo_result (xmodel x) = Some Pass /\ xo_rejected (xmodel x) = false /\ xo_panic (xmodel x) = false /\
+            exists k s, nth_error (x_chain x) k = Some s /\ nth_error (x_results x) k = None.
+Proof. exact xpass_only_if_refuted. Qed.
+Print Assumptions C05_pass_only_if_refuted.
+
+(* the converse direction, with everything that must also hold: accepted, no panic *)
+Theorem C05_full_pass_if : forall x, x_action x <> Skip -> x_val x <> 4%N -> x_err x = false ->
+  List.length (x_results x) = List.length (x_chain x) ->
+  Forall (fun c => cr_result c = ROK \/ cr_result c = RNonRevokable) (x_results x) ->
+  xo_result (xmodel x) = Some Pass /\ xo_rejected (xmodel x) = false /\ xo_panic (xmodel x) = false.
+Proof. exact xpass_if. Qed.
+Print Assumptions C05_full_pass_if.
+
+(* any revoked result => fails as revoked and names exactly the LEAF-MOST revoked certificate,
+   whatever the other results are (also for a short vector) *)
+Theorem C05_full_revoked : forall x, x_action x <> Skip -> x_val x <> 4%N -> x_err x = false ->
+  List.length (x_results x) <= List.length (x_chain x) ->
+  In RRevoked (xresults x) ->
+  exists k s, nth_error (xresults x) k = Some RRevoked /\
+              (forall j, j < k -> nth_error (xresults x) j <> Some RRevoked) /\
+              nth_error (x_chain x) k = Some s /\
+              xo_result (xmodel x) = Some (Revoked s).
+Proof. exact xrevoked. Qed.
+Print Assumptions C05_full_revoked.
+
+(* no revoked result but some result that is not OK / non-revokable (Unknown or any other value)
+   => fails as unknown and names exactly the leaf-most such certificate *)
+Theorem C05_full_unknown : forall x, x_action x <> Skip -> x_val x <> 4%N -> x_err x = false ->
+  List.length (x_results x) <= List.length (x_chain x) ->
+  ~ Forall (fun c => cr_result c = ROK \/ cr_result c = RNonRevokable) (x_results x) ->
+  ~ In RRevoked (xresults x) ->
+  exists k r s, nth_error (xresults x) k = Some r /\ is_ok r = false /\ r <> RRevoked /\
+                (forall j r', j < k -> nth_error (xresults x) j = Some r' -> is_ok r' = true) /\
+                nth_error (x_chain x) k = Some s /\
+                xo_result (xmodel x) = Some (Unknown s).
+Proof. exact xunknown. Qed.
+Print Assumptions C05_full_unknown.
+
+(* an error from the validator fails the validation as inconclusive WHATEVER results come with it *)
+Theorem C05_full_validator_error : forall x, x_action x <> Skip -> x_err x = true ->
+  xo_result (xmodel x) = Some Inconclusive /\ xo_panic (xmodel x) = false /\
+  xo_rejected (xmodel x) = match x_action x with Enforce => true | _ => false end.
+Proof. exact xvalidator_error. Qed.
+Print Assumptions C05_full_validator_error.
+
+Theorem C05_full_error_ignores_results : forall x rs', x_err x = true ->
+  xmodel x = xmodel (mk_xinput (x_action x) (x_sa x) (x_val x) (x_stime x) (x_chain x) true rs').
+Proof. exact xerror_ignores_results. Qed.
+Print Assumptions C05_full_error_ignores_results.
+
+(* mandatory presence: a verifier without any validator fails the validation, consulting nothing;
+   and no constructor produces such a verifier *)
+Theorem C05_full_no_validator : forall x, x_action x <> Skip -> x_val x = 4%N ->
+  xo_calls (xmodel x) = [] /\ xo_result (xmodel x) = Some Inconclusive /\
+  xo_rejected (xmodel x) = match x_action x with Enforce => true | _ => false end.
+Proof. exact xno_validator. Qed.
+Print Assumptions C05_full_no_validator.
+
+Theorem C05_constructor_installs_validator : forall supplied_validator supplied_client,
+  consulted (set_revocation supplied_validator supplied_client) <> None.
+Proof. exact constructor_installs_validator. Qed.
+Print Assumptions C05_constructor_installs_validator.
+
+(* exactly one consultation, through the interface setRevocation selected, with the complete
+   chain and with the signing time of the signed attributes under signingAuthority and the zero
+   time otherwise - independently of what the validator then answers (error, short, overlong) *)
+Theorem C05_full_arguments : forall x, x_action x <> Skip -> (x_val x = 1 \/ x_val x = 2 \/ x_val x = 3)%N ->
+  xo_calls (xmodel x) =
+    [mk_xcall (if (x_val x =? 2)%N then 2 else 1) (x_chain x) (if x_sa x then x_stime x else None)].
+Proof. exact xarguments. Qed.
+Print Assumptions C05_full_arguments.
+
+Theorem C05_full_selection : forall a b x,
+  x_action x <> Skip -> x_val x = val_of_options a b -> (a || b = true) ->
+  map (fun k => Some (xk_which k)) (xo_calls (xmodel x)) = [consulted (set_revocation a b)].
+Proof. exact selection_matches_xmodel. Qed.
+Print Assumptions C05_full_selection.
+
+(* skipped revocation: nothing consulted, no result entry, no rejection, whatever the validator would say *)
+Theorem C05_full_skip : forall x, x_action x = Skip -> xmodel x = mk_xobs [] None false false.
+Proof. exact xmodel_skip. Qed.
+Print Assumptions C05_full_skip.
+
+(* fail closed at the level of Verify: under enforce a signature gets past the revocation step
+   (no error, no panic) exactly when the revocation validation passed *)
+Theorem C05_full_accept_iff : forall x, x_action x = Enforce ->
+  (xo_rejected (xmodel x) = false /\ xo_panic (xmodel x) = false <-> xo_result (xmodel x) = Some Pass).
+Proof. exact xaccept_iff. Qed.
+Print Assumptions C05_full_accept_iff.
+
+Theorem C05_full_rejected_iff : forall x,
+  xo_rejected (xmodel x) = true <->
+  x_action x = Enforce /\ exists c, xo_result (xmodel x) = Some c /\ c <> Pass.
+Proof. exact xrejected_iff. Qed.
+Print Assumptions C05_full_rejected_iff.
+
+Theorem C05_full_log_reports : forall x, x_action x = Log ->
+  xo_rejected (xmodel x) = false /\
+  (xo_panic (xmodel x) = false -> exists c, xo_result (xmodel x) = Some c).
+Proof. exact xlog_reports. Qed.
+Print Assumptions C05_full_log_reports.
+
+(* more results than certificates: the aggregation indexes the chain out of range; Verify does not
+   return, so such an answer never passes either *)
+Theorem C05_full_panic_iff : forall x,
+  xo_panic (xmodel x) = true <->
+  x_action x <> Skip /\ x_val x <> 4%N /\ x_err x = false /\
+  List.length (x_chain x) < List.length (x_results x).
+Proof. exact xpanic_iff. Qed.
+Print Assumptions C05_full_panic_iff.
+
+(* the OCSP / CRL / fallback method annotations and the per-server results and errors never
+   change anything: two inputs that differ only there have the same observation *)
+Theorem C05_independent_of_annotations : forall x y,
+  x_action x = x_action y -> x_sa x = x_sa y -> x_val x = x_val y -> x_stime x = x_stime y ->
+  x_chain x = x_chain y -> x_err x = x_err y ->
+  map cr_result (x_results x) = map cr_result (x_results y) ->
+  xmodel x = xmodel y.
+Proof. exact xindependent. Qed.
+Print Assumptions C05_independent_of_annotations.
+
+(* the oracle the harness evaluates on the real code's observations is met by the full model
+   whenever the validator keeps its contract (an error, or one result per certificate) *)
+Theorem C05_full_model_meets_oracle : forall x, xwf x = true -> xspec_ok x (xmodel x) = true.
+Proof. exact xmodel_spec_ok. Qed.
+Print Assumptions C05_full_model_meets_oracle.
+
+(* [model] (first part, theorems C05_pass_iff .. C05_model_meets_oracle) is the projection of
+   [xmodel] that forgets annotations, the value of the time and the panic flag *)
+Theorem C05_model_is_projection : forall i t err rs,
+  wf i = true -> (i_val i <= 3)%N -> vout_matches (i_vout i) err rs ->
+  let x := mk_xinput (i_action i) (i_sa i) (i_val i) (Some t) (i_chain i) err rs in
+  obs_of_x (xmodel x) = model i /\ xo_panic (xmodel x) = false.
+Proof. exact xmodel_refines_model. Qed.
+Print Assumptions C05_model_is_projection.
+
+(* ---------- non-vacuity of the full statements ---------- *)
+Definition cr (r : rres) : certres := mk_cr r 1 [(1%N, true); (2%N, false)].
+
+Example C05_full_example_revoked_leafmost :   (* two revoked: the leaf-most is named; hypotheses of C05_full_revoked hold *)
+  let x := mk_xinput Enforce true 2 (Some 1700000000%Z) ["leaf"; "i1"; "i2"; "root"] false
+             [cr RUnknown; cr RRevoked; cr RRevoked; cr ROK] in
+  x_action x <> Skip /\ x_val x <> 4%N /\ x_err x = false /\
+  List.length (x_results x) <= List.length (x_chain x) /\ In RRevoked (xresults x) /\
+  xmodel x = mk_xobs [mk_xcall 2 ["leaf"; "i1"; "i2"; "root"] (Some 1700000000%Z)] (Some (Revoked "i1")) true false.
+Proof. cbn. repeat split; try discriminate; auto; lia. Qed.
+
+Example C05_full_example_unknown_leafmost :   (* Unknown and an out-of-range value: the leaf-most non-OK is named *)
+  let x := mk_xinput Log false 3 (Some 1700000000%Z) ["leaf"; "inter"; "root"] false
+             [cr RNonRevokable; cr ROther; cr RUnknown] in
+  ~ Forall (fun c => cr_result c = ROK \/ cr_result c = RNonRevokable) (x_results x) /\ ~ In RRevoked (xresults x) /\
+  xmodel x = mk_xobs [mk_xcall 1 ["leaf"; "inter"; "root"] None] (Some (Unknown "inter")) false false.
+Proof.
+  cbn. repeat split.
+  - intros H. inversion H as [|? ? _ H2]. inversion H2 as [|? ? H3 _]. destruct H3; discriminate.
+  - intros [H|[H|[H|[]]]]; discriminate.
+Qed.
+
+Example C05_full_example_pass :
+  let x := mk_xinput Enforce true 1 (Some 1700000000%Z) ["leaf"; "root"] false [cr ROK; mk_cr RNonRevokable 0 []] in
+  xwf x = true /\ xmodel x = mk_xobs [mk_xcall 1 ["leaf"; "root"] (Some 1700000000%Z)] (Some Pass) false false.
+Proof. split; reflexivity. Qed.
+
+Example C05_full_example_error_with_passing_results :   (* seed C05-5: the error decides *)
+  xmodel (mk_xinput Enforce false 1 (Some 1700000000%Z) ["leaf"; "root"] true [cr ROK; cr ROK]) =
+  mk_xobs [mk_xcall 1 ["leaf"; "root"] None] (Some Inconclusive) true false.
+Proof. reflexivity. Qed.
+
+Example C05_full_example_short_vector_passes :           (* the refutation witness, spelled out *)
+  xmodel (mk_xinput Enforce false 1 (Some 1700000000%Z) ["leaf"; "root"] false []) =
+  mk_xobs [mk_xcall 1 ["leaf"; "root"] None] (Some Pass) false false.
+Proof. reflexivity. Qed.
+
+Example C05_full_example_overlong_panics :
+  xmodel (mk_xinput Log false 2 (Some 1700000000%Z) ["leaf"] false [cr ROK; cr ROK]) =
+  mk_xobs [mk_xcall 2 ["leaf"] None] None false true.
+Proof. reflexivity. Qed.
+
+Example C05_full_example_no_validator :
+  xmodel (mk_xinput Enforce true 4 (Some 1700000000%Z) ["leaf"] false [cr ROK]) =
+  mk_xobs [] (Some Inconclusive) true false.
+Proof. reflexivity. Qed.
+
+Example C05_full_example_annotations :   (* same results, different annotations: same observation *)
+  xmodel (mk_xinput Enforce true 1 (Some 1700000000%Z) ["leaf"; "root"] false [mk_cr RUnknown 3 [(1%N, true); (2%N, true)]; mk_cr ROK 0 []]) =
+  xmodel (mk_xinput Enforce true 1 (Some 1700000000%Z) ["leaf"; "root"] false [mk_cr RUnknown 1 []; mk_cr ROK 2 [(2%N, false)]]).
+Proof. reflexivity. Qed.
+
+Example C05_full_example_projection :
+  let i := mk_input Enforce true 1 ["leaf"; "inter"; "root"] (VRes [RUnknown; RRevoked; ROK]) in
+  wf i = true /\ (i_val i <= 3)%N /\ vout_matches (i_vout i) false [cr RUnknown; cr RRevoked; cr ROK].
+Proof. repeat split; cbn; lia. Qed.
